@@ -61,6 +61,8 @@ func c02Alphabet() (lines []c02Line, hA, hB string) {
 		net(true, ".org^", true, "important"), // short pattern: lands in the sequential table, found last
 		net(false, p, true, "client=192.168.0.0/16|fd00::/8"),
 		net(false, p, true, "client=~127.0.0.1|~::1"),
+		net(false, p, true, "client=10.0.0.0/8|~10.0.0.1"), // a client inside both the permitted and the restricted set
+		net(false, p, true, "client=laptop|~laptop"),
 		net(false, p, false, "third-party", "important"), // browser-only modifier next to a DNS-level one
 		net(true, p, false, "document", "important"),
 		net(false, p, false, "popup", "important"),
@@ -88,6 +90,41 @@ func c02Requests(hA, hB string) (qs []c02Req) {
 		}
 	}
 	return qs
+}
+
+// c02CrossValidate compares NetworkRule.Match, which the reference resolution
+// trusts, with the structural reference matcher (C04's) on every network line
+// of the alphabet and every request: a matcher that is wrong on the alphabet
+// makes the DNS answer wrong although engine and linear scan still agree.
+func c02CrossValidate(c *Ctx, lines []c02Line, reqs []c02Req) (evals int64) {
+	for _, l := range lines {
+		if l.s == nil {
+			continue
+		}
+		sr, ok := sruleToC04(*l.s)
+		if !ok || !isASCII(l.text) {
+			continue // the reference automaton is defined over ASCII
+		}
+		nr, err := rules.NewNetworkRule(l.text, 1)
+		if err != nil {
+			continue
+		}
+		for _, q := range reqs {
+			if h := q.r.Hostname; h == "" || !isASCII(h) || h != strings.ToLower(h) {
+				continue // DNS host names reach the engine in lower case
+			}
+			req := rules.NewRequestForHostname(q.r.Hostname)
+			req.SortedClientTags, req.ClientIP, req.ClientName, req.DNSType = q.r.SortedClientTags, q.r.ClientIP, q.r.ClientName, q.r.DNSType
+			evals++
+			if got, want := nr.Match(req), c04Reference(sr, req); got != want {
+				c.Run.Violate(ev.Violation{Pred: "alphabet-rule-matches-as-written", Sig: map[string]any{"rule": l.text, "request": q.desc},
+					What:   fmt.Sprintf("rule %q on DNS request [%s]: Match = %v, the modifiers as written give %v", l.text, q.desc, got, want),
+					Replay: map[string]any{"history": []int{}}})
+				break
+			}
+		}
+	}
+	return evals
 }
 
 type c02Model struct {
@@ -226,6 +263,7 @@ func init() {
 			m.run(hist)
 			return
 		}
+		c.Run.Set("alphabet_matcher_cross_validations", c02CrossValidate(c, lines, m.reqs))
 		model := statespace.Model{NOps: len(lines), Run: m.run}
 		depth, guard := 4, 2
 		if c.Thorough() {
@@ -250,7 +288,7 @@ func init() {
 		c.Run.Set("exhaustive", !s.DeadlineHit && !g.DeadlineHit)
 		c.Run.Set("explanation", "state = canonical dump of the DNS host table and the embedded network engine tables of a real DNSEngine; transition = append one line of the alphabet (adblock-style rules with every DNS-relevant and browser-only modifier, $badfilter, $dnsrewrite, hosts lines of both families, IPv4-mapped, multi-name, bare domain, colliding names); in every state MatchRequest is compared with the reference resolution for every request")
 		c.Run.Assumption("which alphabet lines are DNS-applicable is fixed in the alphabet table ($domain, $third-party and content-type rules are browser-only)")
-		c.Run.Assumption("NetworkRule.Match / HostRule.Match on independently parsed rules define 'matches the hostname' (properties C04 and C18)")
+		c.Run.Assumption("NetworkRule.Match / HostRule.Match on independently parsed rules define 'matches the hostname' (properties C04 and C18); on the network lines of the alphabet NetworkRule.Match is itself compared with the structural reference matcher for every request")
 	})
 }
 
